@@ -158,11 +158,12 @@ class Units:
                     break
         if proj:
             # a field of a tuple built in this body: the operand that was put there
-            last = proj[-1]
-            if isinstance(last, dict) and last.get("of") == "tuple" and len(proj) == 1:
+            first = proj[0]
+            if isinstance(first, dict) and first.get("of") == "tuple":
+                # (a, b).i  or  ((a, b).i as Some).0 : what was put into the tuple (further projections keep the unit)
                 for d in fn.defs().get(l, []):
-                    if d[0] == "stmt" and d[3]["rv"].get("agg") == "tuple" and last["f"] < len(d[3]["rv"]["ops"]):
-                        return self.unit_of(fn, d[3]["rv"]["ops"][last["f"]], depth + 1)
+                    if d[0] == "stmt" and d[3]["rv"].get("agg") == "tuple" and first["f"] < len(d[3]["rv"]["ops"]):
+                        return self.unit_of(fn, d[3]["rv"]["ops"][first["f"]], depth + 1)
             # a projection of something computed: (checked op).0, (Option as Some).0, tuple fields of call results
             base = self.unit_of_place(fn, {"l": l, "p": []}, depth + 1)
             return base
